@@ -50,10 +50,11 @@ KEYWORDS = [
     "abstract", "become", "box", "do", "final", "macro", "override", "priv", "typeof", "unsized", "virtual",
     "yield", "try", "gen", "union", "macro_rules", "'static", "raw", "safe", "auto", "default", "_",
 ]
+EXTRA_FORMS = ["extra", "Extra", "EXTRA", "-extra", "extra'", "e_x_t_r_a", "extras", "extra_", "xtra", "b"]
 SPECIAL = ["async", "+1", "-1", "", "x", "X", "_", "__", "'", "''", "-", "1", "+", "+1+1", "-1-1", "async_", "Async",
            "XMLHttpRequest", "FIELD_NAME11", "foo-bar", "foo_bar", "fooBar", "FooBar", "foo bar", "foo", "Foo",
            "\u03a3\u03a3", "a\u03a3", "\u03a3a", "X\u03a3X\u03a3 ba\ufb04e", "stra\u00dfe", "STRASSE", "self_", "Self_",
-           "type", "type_", "r#type", "a'", "a", "A", "1a", "x1a", "String", "Vec", "Option", "extra"]
+           "type", "type_", "r#type", "a'", "a", "A", "1a", "x1a", "String", "Vec", "Option"] + EXTRA_FORMS
 # scalars the model consults or emits by itself (prefix, separators, final sigma, special-case outputs)
 FIXED_CHARS = "xX_-'\u03c2\u03a3" + "async_plus1minus1"
 
@@ -118,7 +119,7 @@ def gen_strings(ctx):
     short = ["".join(t) for n in (1, 2) for t in itertools.product(ext, repeat=n)]
     short += ["a" + e + "b" for e in ext] + ["A" + e + "B" for e in ext] + ["aB" + e for e in ext] + [e + "Ab" for e in ext]
     kws = keyword_variants() + SPECIAL
-    n_rand = 1200 if ctx.tier == "quick" else 12000
+    n_rand = 600 if ctx.tier == "quick" else 12000
     rand = [rand_string(rnd) for _ in range(n_rand)]
     return small, short, kws, rand
 
@@ -314,6 +315,7 @@ class Pipe:
             return None
         fields = t[0]["fields"]["fields"]
         flat = [f for f in fields if ["flatten"] in f["serde"]]
+        self.last_flat = [f["name"] for f in flat]
         plain = [f for f in fields if ["flatten"] not in f["serde"]]
         self.stats["fields_checked"] += len(plain)
         idents = [f["name"] for f in fields]
@@ -431,6 +433,7 @@ def run(ctx):
                    ok, json.dumps(h["counterexamples"]))
     ctx.evaluations += sum(h["checked"] for h in aud.get("hyps", []))
     kwv = vlib.run_bin("c08", [{"op": "keywords"}])[0]["verdicts"]
+    ctx.log("audit done")
 
     # ---- strings
     small, short, kws, rand = gen_strings(ctx)
@@ -446,9 +449,9 @@ def run(ctx):
     rnd = random.Random(ctx.seed * 31 + 5)
 
     # pair partners (used by the pipeline section; they need the class table and impl sanitize as well)
-    pair_base = dedupe(corpus_strings + SPECIAL + KEYWORDS + rnd.sample(small, min(len(small), 250 if ctx.tier == "quick" else 1500))
-                       + rnd.sample(short, min(len(short), 150 if ctx.tier == "quick" else 600))
-                       + rnd.sample(g_rand, min(len(g_rand), 100 if ctx.tier == "quick" else 800)))
+    pair_base = dedupe(corpus_strings + SPECIAL + KEYWORDS + rnd.sample(small, min(len(small), 120 if ctx.tier == "quick" else 1500))
+                       + rnd.sample(short, min(len(short), 80 if ctx.tier == "quick" else 600))
+                       + rnd.sample(g_rand, min(len(g_rand), 50 if ctx.tier == "quick" else 800)))
     pairs = []
     for s in pair_base:
         ps = partner_strings(s, rnd)
@@ -472,6 +475,7 @@ def run(ctx):
     san = {s: ("".join(chr(x) for x in impl[(s, False)]["ident"]), "".join(chr(x) for x in impl[(s, True)]["ident"]))
            for s in all_strings if impl[(s, False)]["r"] == "ok" and impl[(s, True)]["r"] == "ok"}
 
+    ctx.log("implementation sanitize on %d strings done" % len(all_strings))
     # direct: every sanitised output is accepted by syn, recase wire exact
     direct = []
     for (s, p), r in impl.items():
@@ -527,6 +531,7 @@ def run(ctx):
     except Exception as e:  # noqa
         model_ok = False
         ctx.oblige("model Sanitize.v evaluates", False, str(e))
+    ctx.log("model sanitize evaluated (%d shards)" % (len(shards) + len(shards_r)))
     n_corr = len(items) + len(items_r)
     ctx.oblige("correspondence K1: sanitize/recase/syn-acceptance (Coq model, per-run class table) = typify_impl::verif "
                "on %d (string, case) pairs: exhaustive <=%d over %d-letter alphabet, %d keyword/special forms, %d random"
@@ -546,14 +551,16 @@ def run(ctx):
 
     # ---- (c) pipeline: names as property names, enum values, definition keys
     pipe = Pipe(ctx, san)
-    n_single = 400 if ctx.tier == "quick" else 3000
-    singles = dedupe(corpus_strings + SPECIAL + KEYWORDS + keyword_variants()[:200] + rnd.sample(small, min(len(small), n_single))
+    n_single = 200 if ctx.tier == "quick" else 3000
+    singles = dedupe(corpus_strings + SPECIAL + KEYWORDS + keyword_variants()[:(100 if ctx.tier == "quick" else 840)] + rnd.sample(small, min(len(small), n_single))
                      + rnd.sample(short, min(len(short), n_single // 2)) + rnd.sample(g_rand, min(len(g_rand), n_single // 2)))
     pcases = []   # (kind, names, case)
     for c in corpus:
         k = c["kind"]
-        if k == "props":
-            pcases.append(("props", c["names"], props_case(c["names"], c.get("additionalProperties"))))
+        if k == "props" and c.get("additionalProperties") is not None:
+            pcases.append(("propsx", c["names"], props_case(c["names"], c["additionalProperties"])))
+        elif k == "props":
+            pcases.append(("props", c["names"], props_case(c["names"])))
         elif k == "enum":
             pcases.append(("enum", c["names"], enum_case(c["names"])))
         elif k == "defs":
@@ -566,6 +573,10 @@ def run(ctx):
         pcases.append(("props", [a, b], props_case([a, b])))
         pcases.append(("enum", [a, b], enum_case([a, b])))
         pcases.append(("defs", [a, b], defs_case([a, b])))
+    # typed additionalProperties: the synthesised flattened field `extra`
+    for s in EXTRA_FORMS + rnd.sample(singles, 60):
+        pcases.append(("propsx", [s], props_case([s], {"type": "integer"})))
+        pcases.append(("propsx", dedupe([s, "b"]), props_case(dedupe([s, "b"]), {"type": "string"})))
     # triples and larger groups
     for _ in range(150 if ctx.tier == "quick" else 1500):
         grp = dedupe(rnd.sample(singles, rnd.randrange(3, 7)))
@@ -573,10 +584,13 @@ def run(ctx):
         pcases.append(("enum", grp, enum_case(grp)))
         pcases.append(("defs", grp, defs_case(grp)))
     pres = vlib.run_vh("gen", [c for _, _, c in pcases], timeout=3000)
+    ctx.log("vh gen on %d schemas done" % len(pcases))
     observed = []
     for (kind, names, case), res in zip(pcases, pres):
-        if kind == "props":
+        if kind in ("props", "propsx"):
             o = pipe.check_props(names, case, res)
+            if o is not None and kind == "propsx":
+                o = o + [("extra", "flatten")] if pipe.last_flat == ["extra"] else o + [("?", "flatten-missing")]
         elif kind == "enum":
             o = pipe.check_enum(names, case, res)
         else:
@@ -594,20 +608,21 @@ def run(ctx):
         def expr(it):
             kind, names, _ = it
             l = "[" + ";".join(ustr(n) for n in names) + "]"
-            if kind == "props":
+            if kind in ("props", "propsx"):
                 # BTreeMap order of the property names, then stable sort by identifier: compare as multisets
-                return "run_fields cls %s" % l
+                return "run_fields cls %s %s" % (l, "true" if kind == "propsx" else "false")
             if kind == "enum":
                 return "run_variants cls %s" % l
             return "show_list (List.map show_ustring (def_idents cls %s))" % l
         pshards = shard_by_table(rows, pcases, lambda it: "".join(it[1]), expr, 200)
         pmres = eval_shards("c08p", pshards)
         for (kind, names, case), o, m in zip(pcases, observed, pmres):
-            if kind == "props":
+            if kind in ("props", "propsx"):
                 if o is None:
                     e = "rejected"
                 else:
-                    e = ",".join(sorted(fmt_pairs([x]) for x in o))
+                    e = ",".join(sorted((show(cps(x[0])) + "/flatten") if x[1] in ("flatten", "flatten-missing")
+                                        else fmt_pairs([x]) for x in o))
                 mm = ",".join(sorted(m.split(","))) if m else ""
             elif kind == "enum":
                 if o is None:
@@ -630,13 +645,14 @@ def run(ctx):
     except Exception as e:  # noqa
         pm_ok = False
         ctx.oblige("model evaluates on pipeline cases", False, str(e))
+    ctx.log("model on pipeline cases evaluated")
     ctx.oblige("correspondence K4: field / variant (X fallback, panic) / item identifiers and renames of the real pipeline "
                "= model on %d schemas" % len(pcases), pm_ok and not pm, json.dumps(pm[:5]))
     ctx.coverage["correspondence_pipeline_mismatches"] = len(pm)
 
     # replacement lookup key (lib.rs:650): key = sanitize(def, Pascal)
     rl = []
-    rl_names = dedupe(["foo-bar", "foo_bar", "FooBar", "self", "1a", "", "a'b", "\u00e9t\u00e9"] + rnd.sample(singles, 40))
+    rl_names = dedupe(["foo-bar", "foo_bar", "FooBar", "self", "1a", "", "a'b", "\u00e9t\u00e9"] + [x for x in rnd.sample(singles, 60) if not set(x) & set("/#%~")][:40])
     rcases = []
     for n in rl_names:
         key = san[n][1]
